@@ -122,7 +122,9 @@ pub fn dump_fn<'tcx>(cx: &Cx<'tcx>, ldid: LocalDefId, big: usize) -> J {
     }
     let body: &Body<'tcx> = tcx.optimized_mir(did);
     let nstmts: usize = body.basic_blocks.iter().map(|b| b.statements.len() + 1).sum();
-    let compact = nstmts > big;
+    let full = std::env::var("SWV_FULL").unwrap_or_default();
+    let name = tcx.opt_item_name(did).map(|s| s.to_string()).unwrap_or_default();
+    let compact = nstmts > big && !full.split(',').any(|n| !n.is_empty() && n == name);
     f.set("nstmts", J::Int(nstmts as i128));
     f.set("compact", J::Bool(compact));
     f.set("arg_count", J::Int(body.arg_count as i128));
